@@ -33,8 +33,6 @@ _base_cases = cases
 
 
 def cases(tier, seed):    # noqa: F811
-    for c in _base_cases(tier, seed):
-        yield c
     # several associations sending at the same time in one process, with line-level
     # pre-emption inside the group-length computation and the element encoder they share
     rnd = random.Random('c08h/%d' % seed)
@@ -42,6 +40,9 @@ def cases(tier, seed):    # noqa: F811
         yield dict(local=rnd.choice([128, 16384]), peer=65536, seed=seed * 100057 + i,
                    nassoc=rnd.choice([2, 3]),
                    fine=['set_length', 'encode_element', 'encode', 'send'])
+    # (the bulk comes last so that a wall-clock budget cut never drops the family above)
+    for c in _base_cases(tier, seed):
+        yield c
 
 
 def run_case(case):
